@@ -13,28 +13,37 @@ import os, tempfile, shutil, sys, argparse
 drf = build.load_pkg()
 from digital_rf import list_drf as L
 kw = %r
-top = tempfile.mkdtemp(); src = top + '/s'; dst = top + '/d'
-chd = src + '/ch0'; os.makedirs(chd + '/2020-01-01T00-00-00')
-open(chd + '/drf_properties.h5', 'w').write('props'); open(chd + '/2020-01-01T00-00-00/rf@1577836810.000.h5', 'w').write('data')
 chs = [[], ['ch0'], ['ch0/'], ['./ch0']][kw.get('ch_style', 0)]
 cmd = ['cp', 'mv', 'ln'][kw.get('cmd', 0)]
-listed = [os.path.relpath(p, src) for p in L.lsdrf(src)]
-if kw.get('dst_pre'):
-    dpre = dst + '/ch0/2020-01-01T00-00-00/rf@1577836810.000.h5'; os.makedirs(os.path.dirname(dpre)); open(dpre, 'w').write('old!')
-    t = os.path.getmtime(chd + '/2020-01-01T00-00-00/rf@1577836810.000.h5'); os.utime(dpre, (t + 5, t + 5))
-srcdata = {r: open(os.path.join(src, r)).read() for r in listed}
-a = argparse.Namespace(src=src, dest=dst, chs=[','.join(chs)] if chs else [], starttime=None, endtime=None, func=None, recursive=True, reverse=False,
-                       include_drf=True, include_dmd=True, include_drf_properties=None, include_dmd_properties=None)
-if cmd == 'ln': a.symbolic = bool(kw.get('symbolic'))
-{'cp': L._run_cp, 'mv': L._run_mv, 'ln': L._run_ln}[cmd](a)
-got = sorted(os.path.relpath(os.path.join(d_, f), dst) for d_, _, fs in os.walk(dst) for f in fs)
-print('listed', sorted(listed)); print('at destination', got)
-bad = got != sorted(listed)
-for r in listed:
-    p = os.path.join(dst, r)
-    if os.path.isfile(p) and open(p).read() != srcdata[r]: print('destination', r, 'holds', repr(open(p).read()), 'instead of', repr(srcdata[r])); bad = True
-    if cmd == 'mv' and os.path.exists(os.path.join(src, r)): print('mv left', r, 'in the source'); bad = True
-shutil.rmtree(top)
+bad = False
+# the same selection options must reach the listing as `drf ls` would use: every option is tried with a value that differs from the others
+OPTS = [dict(), dict(include_drf_properties=True, include_dmd_properties=False), dict(include_drf_properties=False, include_dmd_properties=True),
+        dict(include_drf=False), dict(include_dmd=False), dict(reverse=True)]
+for opts in OPTS:
+    top = tempfile.mkdtemp(); src = top + '/s'; dst = top + '/d'
+    chd = src + '/ch0'; os.makedirs(chd + '/2020-01-01T00-00-00'); os.makedirs(chd + '/metadata/2020-01-01T00-00-00')
+    open(chd + '/drf_properties.h5', 'w').write('props'); open(chd + '/2020-01-01T00-00-00/rf@1577836810.000.h5', 'w').write('data')
+    open(chd + '/metadata/dmd_properties.h5', 'w').write('mprops'); open(chd + '/metadata/2020-01-01T00-00-00/metadata@1577836810.h5', 'w').write('mdata')
+    sel = dict(recursive=True, reverse=False, starttime=None, endtime=None, include_drf=True, include_dmd=True, include_drf_properties=None, include_dmd_properties=None)
+    sel.update(opts)
+    listed = [os.path.relpath(p, src) for p in L.lsdrf(src, **sel)]
+    if kw.get('dst_pre') and 'ch0/2020-01-01T00-00-00/rf@1577836810.000.h5' in listed:
+        dpre = dst + '/ch0/2020-01-01T00-00-00/rf@1577836810.000.h5'; os.makedirs(os.path.dirname(dpre)); open(dpre, 'w').write('old!')
+        t = os.path.getmtime(chd + '/2020-01-01T00-00-00/rf@1577836810.000.h5'); os.utime(dpre, (t + 5, t + 5))
+    srcdata = {r: open(os.path.join(src, r)).read() for r in listed}
+    before = sorted(os.path.relpath(os.path.join(d_, f), src) for d_, _, fs in os.walk(src) for f in fs)
+    a = argparse.Namespace(src=src, dest=dst, chs=[','.join(chs)] if chs else [], func=None, **sel)
+    if cmd == 'ln': a.symbolic = bool(kw.get('symbolic'))
+    {'cp': L._run_cp, 'mv': L._run_mv, 'ln': L._run_ln}[cmd](a)
+    got = sorted(os.path.relpath(os.path.join(d_, f), dst) for d_, _, fs in os.walk(dst) for f in fs)
+    if got != sorted(listed): print(opts, 'listed', sorted(listed), 'at destination', got); bad = True
+    for r in listed:
+        p = os.path.join(dst, r)
+        if os.path.isfile(p) and open(p).read() != srcdata[r]: print('destination', r, 'holds', repr(open(p).read()), 'instead of', repr(srcdata[r])); bad = True
+    after = sorted(os.path.relpath(os.path.join(d_, f), src) for d_, _, fs in os.walk(src) for f in fs)
+    want_after = [r for r in before if not (cmd == 'mv' and r in listed)]
+    if after != want_after: print(opts, 'source afterwards', after, 'expected', want_after); bad = True
+    shutil.rmtree(top)
 sys.exit(1 if bad else 0)
 '''
 
